@@ -314,7 +314,39 @@ func runC08(c *Ctx) {
 			decideObl(c, w, z, o, rule, oblKey(o, fn, ord), lifted)
 		}
 	}
-	c.note("decode cone: %d functions, %d obligations", len(cone), nObl)
+	// the name-list and attribute decoding that package sftp's client does inline on reply bytes (ReadDir, ReadLink,
+	// RealPath, Stat …) is decoding too: its allocations are bounded by the input (shared with C20.Z2)
+	nClientAlloc := 0
+	for _, fn := range p.LibFuncs() {
+		if outermost(fn).Package() != p.Sftp || !isClientSide(fn) {
+			continue
+		}
+		var z *zfn
+		eachInstr(fn, func(in ssa.Instruction) {
+			if _, ok := in.(*ssa.MakeSlice); !ok {
+				return
+			}
+			if z == nil {
+				z = w.get(fn)
+				z.clientAxioms()
+			}
+		})
+		if z == nil {
+			continue
+		}
+		for _, o := range z.obligationsOf() {
+			ms, ok := o.In.(*ssa.MakeSlice)
+			if !ok || o.Kind != "alloc" {
+				continue
+			}
+			if !replyTainted(ms.Len, map[ssa.Value]bool{}, 0) && !replyTainted(ms.Cap, map[ssa.Value]bool{}, 0) {
+				continue
+			}
+			nClientAlloc++
+			decideObl(c, w, z, o, "O2", oblKey(o, fn, ord), lifted)
+		}
+	}
+	c.note("decode cone: %d functions, %d obligations; %d reply-sized allocations in client decoders", len(cone), nObl, nClientAlloc)
 	c.floor("O1", 40)
 
 	// ---------- O3 frame limits ----------
